@@ -130,16 +130,22 @@ def gen(rng, tier, i):
         ci["server"]["default_ops"] = [op("recv_http_head", label="upreq"), send(b"HTTP/1.1 200 OK\r\nSession-Id: 7\r\n\r\n"), op("recv_eof", timeout_ms=60000, label="upbytes", keep=8192)]
         conns.append(ci)
     lb = sc.add_loadbalance("lb-tcp", [conns[0]])
-    targets = ["u%d" % k for k in range(nconn)] + ["lb-tcp", "deny"]
+    # a SOCKS4 upstream: TCP only (the protocol has no UDP command)
+    us4 = sc.add_socks_connector("us4", version=4)
+    us4["server"]["default_ops"] = [op("recv_socks4_request", label="upreq"), send(bytes([0, 90, 0, 0, 0, 0, 0, 0])), op("recv_eof", timeout_ms=60000, label="upbytes", keep=8192)]
+    targets = ["u%d" % k for k in range(nconn)] + ["lb-tcp", "deny", "us4"]
     # request pool
     nreq = rng.randint(1, 6)
     pool = {"listeners": ["l-http", "l-socks", "l-tp", "other"], "src_ips": [], "tgt_hosts": [], "ports": [],
-            "nets": ["10.1.0.0/16", "10.1.0.0/30", "10.0.0.0/8", "0.0.0.0/0", "fd01::/16", "fd01::/126", "::/0", "10.9.0.0/24", "192.168.0.0/16", "fd09::/64", "10.1.0.2/32"]}
+            "nets": ["10.1.0.0/16", "10.1.0.0/30", "10.0.0.0/8", "0.0.0.0/0", "fd01::/16", "fd01::/126", "::/0", "10.9.0.0/24", "192.168.0.0/16", "fd09::/64", "10.1.0.2/32", "::/96", "10.99.0.0/16"]}
     reqs = []
     for k in range(nreq):
         lname = rng.choice(["l-http", "l-socks"])
         v6c = rng.random() < 0.2 and lname == "l-http" and "[::]" in sc.cfg["listeners"][0]["bind"]
         src = sc.client_ip(v6c)
+        if v6c and rng.random() < 0.4:
+            # an IPv6 client whose address contains an IPv4 one (v4-compatible ::/96): it is an IPv6 source, not that IPv4 host
+            src = "::a63:%x" % rng.randint(1, 200)
         tk = rng.choice(["domain", "ipv4", "ipv6"])
         port = 2000 + k * 7 + rng.randint(0, 5)
         if tk == "domain":
@@ -204,6 +210,9 @@ def gen(rng, tier, i):
             r["expect"] = ("refuse", "deny")
         elif decision == "lb-tcp":
             r["expect"] = ("refuse", "unsupported") if r["udp"] else ("allow", "u0", "lb-tcp")
+        elif decision == "us4":
+            # IPv6 literals cannot be carried by SOCKS4: refused as well (C03 judges how)
+            r["expect"] = ("refuse", "unsupported") if (r["udp"] or ":" in r["host"]) else ("allow", "us4", "us4")
         else:
             r["expect"] = ("allow", decision, decision)
         r["marker"] = ("MARK%02d-%08x" % (r["k"], rng.getrandbits(32))).encode().hex()
@@ -284,6 +293,15 @@ def oracle(plan, out):
         # which upstreams carried this request
         mine = []
         for (actor, head, after) in seen:
+            if actor == "up-us4":
+                try:
+                    cmd4, kind4, host4, port4, uid4, rest4 = rc.parse_socks4_request(head)
+                except (rc.ParseError, ValueError):
+                    continue
+                h4 = host4.decode("latin1") if isinstance(host4, bytes) else str(host4)
+                if want_target is not None and ("%s:%d" % (h4, port4)).encode() == want_target:
+                    mine.append(actor)
+                continue
             try:
                 m, target, ver, hdrs, rest = rc.parse_http_request(head)
             except rc.ParseError:
